@@ -108,6 +108,54 @@ class Env:
         return Env(self)
 
 
+PLAIN_DECORATORS = ("staticmethod", "classmethod", "abstractmethod")
+HOOK_METHODS = ("__getattr__", "__getattribute__", "__setattr__", "__delattr__", "__deepcopy__",
+                "__copy__", "__getstate__", "__setstate__", "__reduce__", "__reduce_ex__",
+                "__init_subclass__", "__class_getitem__", "__new__")
+
+
+def check_plain_class(cls_node, allow_hooks=()):
+    """Fail closed on everything that changes what `self.m(...)` / `self.a` mean without
+    showing up in the method bodies the translators read: decorators (memoisation, wrappers),
+    attribute / copy hooks, metaclasses, methods defined twice, class-level assignments that
+    rebind a method name."""
+    if any(k.arg == "metaclass" for k in cls_node.keywords):
+        raise TranslateError("class %s has a metaclass" % cls_node.name)
+    for d in cls_node.decorator_list:
+        raise TranslateError("class %s is decorated (%s)" % (cls_node.name, ast.unparse(d)))
+    seen = {}
+    for f in cls_node.body:
+        if isinstance(f, (ast.FunctionDef, ast.AsyncFunctionDef)):
+            for d in f.decorator_list:
+                if not (isinstance(d, ast.Name) and d.id in PLAIN_DECORATORS):
+                    raise TranslateError("method %s.%s is decorated with %s (line %d)" % (
+                        cls_node.name, f.name, ast.unparse(d), f.lineno))
+            if f.name in seen:
+                raise TranslateError("method %s.%s is defined twice (lines %d, %d)" % (
+                    cls_node.name, f.name, seen[f.name], f.lineno))
+            seen[f.name] = f.lineno
+            if f.name in HOOK_METHODS and f.name not in allow_hooks:
+                raise TranslateError("class %s defines the hook %s (line %d)" % (
+                    cls_node.name, f.name, f.lineno))
+    for f in cls_node.body:
+        tg = []
+        if isinstance(f, ast.Assign):
+            tg = f.targets
+        elif isinstance(f, (ast.AnnAssign, ast.AugAssign)):
+            tg = [f.target]
+        for t in tg:
+            if isinstance(t, ast.Name) and t.id in seen:
+                raise TranslateError("class %s rebinds the method name %s at class level (line %d)"
+                                     % (cls_node.name, t.id, f.lineno))
+
+
+def check_plain_source(src, classes=None):
+    """check_plain_class for the named classes (default: all) of one source text."""
+    for n in ast.parse(src).body:
+        if isinstance(n, ast.ClassDef) and (classes is None or n.name in classes):
+            check_plain_class(n)
+
+
 class ClassTranslator:
     """Translate selected methods of one class.
 
@@ -129,6 +177,7 @@ class ClassTranslator:
         if self.cls is None:
             raise TranslateError("class %s not found" % cls)
         self.fn = {f.name: f for f in self.cls.body if isinstance(f, ast.FunctionDef)}
+        check_plain_class(self.cls)
         self.attrs = list(attrs)
         self.externals = externals
         self.methods = list(methods)
